@@ -186,18 +186,15 @@ structure VmemNewFacts where
   freesSourceWithoutDestroying : Bool  -- the source box is deallocated as `MaybeUninit` cells (its items now live in the mapping)
   deriving DecidableEq, Repr, Inhabited
 
-/-- Landmarks of `MRBFuture::poll`: a loop with one attempt site per calling convention, one waker registration placed after
-the attempt and after the `Pending` exit (so `Pending` is only returned by the iteration that follows the registration), one
-`Ready` and one `Pending` exit, and the payload put back before `Pending`. -/
+/-- What one `MRBFuture::poll` does, as the translator recognises it from the landmarks of the source (the attempt = a call with
+`self.iter` as first argument, one site per calling convention; the waker registration; the `Ready`/`Pending` exits; the payload
+put back), whether `poll` is written as a loop that goes round at most twice or unrolled into attempt – register – attempt. -/
 structure PollShape where
-  hasLoop : Bool
-  attemptSites : Nat
-  registerSites : Nat
-  readySites : Nat
-  pendingSites : Nat
-  restoresPayload : Bool
-  attemptBeforeRegister : Bool
-  pendingBeforeRegister : Bool
+  form : String                              -- "loop" | "unrolled" (informative)
+  attemptsAtMost : Nat                       -- attempts per poll (0 = shape not recognised)
+  registersBetweenAttempts : Bool            -- the waker is registered after a failed first attempt and before the second
+  pendingOnlyAfterRegisteredAttempt : Bool   -- `Pending` is returned only when the attempt that follows the registration failed
+  restoresPayload : Bool                     -- a failed attempt puts the payload back
   deriving DecidableEq, Repr, Inhabited
 
 end MRB
